@@ -83,7 +83,7 @@ def pos_num(r, tiny=0.35):
     if x < tiny + 0.1:
         return r.choice([1e5, 1e16, 1.5e17, 123456.789, 1e22])
     return r.choice([4.3, 8.9, 2.0, 1.0, 0.5, 1.8, 4.5, 2, 5, 0.1, 0.3, 1 / 3, 12.75, 0.0001, 0.00011]) if r.random() < 0.7 \
-        else round(r.uniform(0.01, 30), r.randint(1, 8))
+        else round(r.uniform(0.06, 30), r.randint(1, 8))
 
 
 def angle(r):
